@@ -165,7 +165,7 @@ StringDictionaryRPFC::StringDictionaryRPFC(IteratorDictString *it,
     uint offset = 0, bytes = 0;
     uchar *tmp = new uchar[4 * maxlength];
 
-    size_t reservedStrings = MEMALLOC * bucketsize;
+    size_t reservedStrings = (size_t)MEMALLOC * bucketsize;
     textStrings = new uchar[reservedStrings];
     bytesStrings = 0;
     textStrings[bytesStrings] = 0;
